@@ -9,4 +9,4 @@ class Placeholder(RawTokenModel):
         return cls('')
 
     def _clone(self) -> 'Placeholder':
-        return Placeholder('')
+        return Placeholder(self.raw_text)
